@@ -261,7 +261,7 @@ def pool_pel(draw):
                 c = draw(S.callout())
                 if draw(st.booleans()):
                     c['fru']['flags'] = (c['fru']['flags'] & 0xF0) | 0x02
-                    c['fru']['pn'] = M.pad_text(draw(st.sampled_from(['BMC0001', 'PROC001', 'PROC002', 'FSI0042'])), 8)
+                    c['fru']['pn'] = M.pad_text(draw(st.sampled_from(['BMC0001', 'PROC001', 'PROC003', 'PROC004', 'PROC005', 'FSI0042'])), 8)
                 cs.append(c)
             cl = {'ssid': 0xC0, 'ssflags': 0, 'list': cs}
         secs.append(M.default_src(ascii=M.pad_text(code, 32, b' '), words=[draw(S.uint(32)) for _ in range(8)],
